@@ -167,7 +167,11 @@ theorem tlString_encode (v : Variant) (k : InputKind) (f : Field) (rest : List N
   rw [typeOf_byte _ hb, lenOf_byte _ hb]
   have e1 : (f.typeCode * 64 + f.payload.length) / 64 = f.typeCode := by omega
   have e2 : (f.typeCode * 64 + f.payload.length) % 64 = f.payload.length := by omega
-  rw [e1, e2, List.take_left']
+  have hguard : (!v.fieldsLax && decide ((f.payload ++ rest).length < f.payload.length)) = false := by
+    have : decide ((f.payload ++ rest).length < f.payload.length) = false := by simp
+    rw [this]; simp
+  rw [guardMask_mod, e1, e2, hguard, List.take_left']
+  simp only [Bool.false_eq_true, if_false]
   · cases f with
     | binary bs => simp [Field.typeCode, type_codes.1, type_codes.2, viewField, Field.payload, Field.text]
     | text8 bs => simp [Field.typeCode, type_codes.1, type_codes.2, viewField, Field.payload, Field.text]
